@@ -45,6 +45,26 @@ Fixpoint replay (t : pterm) (st : state) : option state :=
       match find_slot a (memory st) with
       | Some i => run1 ILoad [N.of_nat i] st
       | None => None end
+  | Gen t x =>
+      match replay t st with
+      | Some s1 => run1 IGen [x] s1
+      | None => None end
+  end.
+
+(** every Instantiate of the term is one on which the checker computes what the generator advertised
+    (the stored conclusions are the generator's [Pattern.instantiate]; cf. PTerm [inst_agree]) *)
+Fixpoint checker_agrees (axs : list pat) (t : pterm) : bool :=
+  match t with
+  | MP l r => checker_agrees axs l && checker_agrees axs r
+  | Inst t d =>
+      checker_agrees axs t &&
+      match static_conc true axs t with
+      | Some c => match inst guards_sound c (map fst d) (map snd d) with
+                  | Some r => pat_eqb r (PM.py_inst d c)
+                  | None => false end
+      | None => false end
+  | Gen t _ => checker_agrees axs t
+  | _ => true
   end.
 
 Lemma find_slot_nth : forall a mem i, find_slot a mem = Some i -> nth_error mem i = Some (TProved a).
@@ -80,32 +100,43 @@ Proof.
 Qed.
 
 Theorem replay_correct : forall axs t c st,
-  static_conc axs t = Some c ->
+  static_conc true axs t = Some c ->
+  checker_agrees axs t = true ->
   axioms_in_memory axs (memory st) ->
   replay t st = Some (push (TProved c) st).
 Proof.
-  intros axs. induction t as [| | |l IHl r IHr|t IH d|a]; intros c st H Hmem; cbn [static_conc] in H.
+  intros axs. induction t as [| | |l IHl r IHr|t IH d|a|t IH x]; intros c st H A Hmem; cbn [static_conc] in H.
   - injection H as <-. reflexivity.
   - injection H as <-. reflexivity.
   - injection H as <-. reflexivity.
-  - destruct (static_conc axs l) as [cl|] eqn:El; [|discriminate].
-    destruct (static_conc axs r) as [cr|] eqn:Er; [|destruct cl; discriminate].
+  - cbn in A. apply andb_true_iff in A as [A1 A2].
+    destruct (static_conc true axs l) as [cl|] eqn:El; [|discriminate].
+    destruct (static_conc true axs r) as [cr|] eqn:Er; [|destruct cl; discriminate].
     destruct cl as [| | |p q| | | | | |]; try discriminate.
     destruct (pat_eqb p cr) eqn:E; [|discriminate]. injection H as <-.
-    cbn [replay]. rewrite (IHl _ st eq_refl Hmem).
-    rewrite (IHr _ (push (TProved (Imp p q)) st) eq_refl Hmem).
+    cbn [replay]. rewrite (IHl _ st eq_refl A1 Hmem).
+    rewrite (IHr _ (push (TProved (Imp p q)) st) eq_refl A2 Hmem).
     unfold run1. cbn. rewrite E. destruct st; reflexivity.
-  - destruct (static_conc axs t) as [c0|] eqn:Et; [|discriminate].
+  - cbn [checker_agrees] in A. apply andb_true_iff in A as [A1 A2].
+    destruct (static_conc true axs t) as [c0|] eqn:Et; [|discriminate].
+    cbn in H. injection H as <-.
+    destruct (inst guards_sound c0 (map fst d) (map snd d)) as [r|] eqn:EI; [|discriminate].
+    apply pat_eqb_eq in A2. subst r.
     cbn [replay].
     destruct (push_plugs_stack (map snd d) st) as (Hs & Hm & Hc).
     assert (Hmem' : axioms_in_memory axs (memory (push_plugs (map snd d) st))) by now rewrite Hm.
-    rewrite (IH _ _ eq_refl Hmem').
+    rewrite (IH _ _ eq_refl A1 Hmem').
     unfold run1. cbn [step_i push stack]. rewrite Nat2N.id.
     replace (length d) with (length (map fst d)) by apply map_length.
     rewrite Hs, take_ids_plugs by now rewrite !map_length.
-    rewrite H. unfold set_stack, push. rewrite Hm, Hc. destruct st; reflexivity.
+    rewrite EI. unfold set_stack, push. rewrite Hm, Hc. destruct st; reflexivity.
   - destruct (existsb (pat_eqb a) axs) eqn:E; [|discriminate]. injection H as <-.
     cbn [replay]. specialize (Hmem a E).
     destruct (find_slot a (memory st)) as [i|] eqn:F; [|congruence].
     unfold run1. cbn [step_i]. rewrite Nat2N.id, (find_slot_nth _ _ _ F). reflexivity.
+  - cbn in A. destruct (static_conc true axs t) as [c0|] eqn:Et; [|discriminate].
+    destruct c0 as [| | |l r| | | | | |]; try discriminate.
+    cbn in H. destruct (e_fresh r x) eqn:F; [|discriminate]. injection H as <-.
+    cbn [replay]. rewrite (IH _ st eq_refl A Hmem).
+    unfold run1. cbn. rewrite F. destruct st; reflexivity.
 Qed.
